@@ -69,8 +69,15 @@ CLAIMS = {
                     'documented compact forms (CHAIN); dialect keys are W3C keys stored under their own names, numeric options not '
                     'defaulted with `or` (DKEYS); type tables closed and equal to the documented mapping, no date type reaches dtype (TYPES).',
             'technique': 'abstract interpretation of the translation function on ~1100 composed formats, registry/key-set comparison'},
-    'C17': {'text': IEF + ' the three Pandas front-end methods (discover/verify/detect).',
-            'technique': 'call-graph reachability + definite-assignment walk + arity check (AST)'},
+    'C17': {'text': 'every command-line key is a named parameter on its forwarding chain (FLAGS); front ends reach load_df and the library '
+                    'function, no second implementation (SAMEAPI); error arms exit non-zero before any effect (EXIT); looked-up values are '
+                    'used (DEFUSE); rows numbered before filtering (ROWNUM); date writer/reader agreement (DATELANG); ' + IEF +
+                    ' the three Pandas front-end methods.',
+            'technique': 'registry comparison across **kwargs chains, statement-order and guard-chain checks, path-aware def-use, call-graph reachability'},
+    'C19': {'text': 'write-back index matches the slice offset (ARGVIDX); tag attribute agrees between decorator, loader and pytest filter, all '
+                    'loaders filter, inheritance-aware lookup (LOADER); boolean table of list mode x nested suite (CHECKMODE); flag literals, '
+                    'monotone flags and their wiring (FLAGS).',
+            'technique': 'AST pattern with embedded positive example, registry comparison, boolean-table evaluation, guard-chain queries'},
     'C01': {
         'text': 'each emitted constraint comes from the statistic its verifier reads and the default arm holds at equality; sign closure '
                 'over the six orderings (CLOSE); one cache key / one classifier / one flag set on both sides (SHARED); no store into '
